@@ -195,3 +195,151 @@ Example C07_ex_roundtrip :
   | Err e => Err e
   end = Ok (ed_pub toy_crypto (repeat x07 64)).
 Proof. vm_compute. reflexivity. Qed.
+
+From SP Require Import GoLang GoLang2 GoAst GoAstRecv GoAstSign GoAstOpen.
+From SP Require GoAstProofs4b GoAstProofs6a GoAstProofs7c GoEndToEndSign.
+From Coq Require String.
+Import String.StringSyntax.
+(* =========================================== PART B: props/C07.v ======================================= *)
+(* ---- END TO END at the level of the translated Go code: detached signatures (lemmas of proofs/GoEndToEndSign.v) ----
+   go_signdet_session c v sk pieces r runs, with the evaluator of model/GoLang2.v, the translated
+   newSignDetachedStream on the empty in-memory writer, the translated signDetachedStream.Write once per piece (each
+   must return (len p, nil)), then the translated Close; the evaluator cannot write the encoder back in Close
+   (GoAstProofs6a.v LIMIT), so the session requires Close under the in-memory writer to return nil and reads the
+   packet pkt Close hands to encoder.Encode with the reporting encoder spy_enc: the result is w ++ pkt, w = what the
+   writer held before Close.  C07_source_end_to_end_sender shows the reading does not depend on the spy (for EVERY
+   encoder step function es, Close returns es's error on that w and pkt).
+   Hypotheses: crypto_ok c; v is Version1 or Version2; the randomness source delivers 16 bytes; the keyring holds the
+   signer's key; the validator is CheckKnownMajorVersion or SingleVersionValidator(v).  No evaluator bound. *)
+Section C07_source_end_to_end.
+Import GoAstProofs4b GoAstProofs7c GoAstProofs6a GoEndToEndSign.
+Local Open Scope string_scope.
+
+(* both detached entry points accept the Go session's signature file for the concatenated pieces and return the
+   signer's key (the message reader of VerifyDetachedReader delivers the message, then io.EOF). *)
+Theorem C07_source_end_to_end_VerifyDetached (c : crypto) (Hc : crypto_ok c) (v : version) (sk : bytes)
+        (pieces : list bytes) (r : rng) (kr : sigring) (vd : validator) (VV KR : gval) :
+  v = v1 \/ v = v2 -> (16 <= List.length r)%nat -> In (ed_pub c sk) kr -> good_validator vd v ->
+  exists sigfile,
+    go_signdet_session c v sk pieces r = Some sigfile /\
+    fst (run_func2 (ext_vdet2 c vd kr) f_saltpack_VerifyDetached [VV; VBytes (List.concat pieces); VBytes sigfile; KR])
+    = ORet [g_spk (ed_pub c sk); VNil] /\
+    fst (run_func2 (ext_vdet c vd kr) f_saltpack_VerifyDetachedReader [VV; g_rdr (List.concat pieces) None; VBytes sigfile; KR])
+    = ORet [g_spk (ed_pub c sk); VNil].
+Proof. exact (go_signDetached_Verify_end_to_end c Hc v sk pieces r kr vd VV KR). Qed.
+
+(* the sender session alone against the model's sign_detached.  Hypothesis: the model's sender succeeds.  No crypto
+   hypothesis. *)
+Theorem C07_source_end_to_end_sender (c : crypto) (v : version) (sk : bytes) (pieces : list bytes) (r r' : rng) (outb : bytes) :
+  sign_detached c v sk (List.concat pieces) r = Ok (outb, r') ->
+  exists obj w pkt,
+    go_sds_open c v sk pieces r = Some obj /\ go_field "encoder" obj = Some (VBytes w) /\ outb = (w ++ pkt)%list /\
+    (forall es : gval -> bytes -> gval * gerr,
+       fst (run_func2 (ext_det_close c es) f_saltpack_signDetachedStream_Close [obj]) = ORet [g_errv (snd (es (VBytes w) pkt))]) /\
+    go_signdet_session c v sk pieces r = Some outb.
+Proof. exact (go_signdet_session_model c v sk pieces r r' outb). Qed.
+
+(* a keyring that does not hold the signer's key: (nil, ErrNoSenderKey{signer's public key}) from both entry points. *)
+Theorem C07_source_end_to_end_unknown_signer (c : crypto) (Hc : crypto_ok c) (v : version) (sk : bytes)
+        (pieces : list bytes) (r : rng) (kr : sigring) (vd : validator) (VV KR : gval) :
+  v = v1 \/ v = v2 -> (16 <= List.length r)%nat -> ~ In (ed_pub c sk) kr -> good_validator vd v ->
+  exists sigfile,
+    go_signdet_session c v sk pieces r = Some sigfile /\
+    fst (run_func2 (ext_vdet2 c vd kr) f_saltpack_VerifyDetached [VV; VBytes (List.concat pieces); VBytes sigfile; KR])
+    = ORet [VNil; VErr "ErrNoSenderKey" [VBytes (ed_pub c sk)]] /\
+    fst (run_func2 (ext_vdet c vd kr) f_saltpack_VerifyDetachedReader [VV; g_rdr (List.concat pieces) None; VBytes sigfile; KR])
+    = ORet [VNil; VErr "ErrNoSenderKey" [VBytes (ed_pub c sk)]].
+Proof. exact (go_signDetached_unknown_signer c Hc v sk pieces r kr vd VV KR). Qed.
+
+(* the mode gate: the signature file is refused by Verify and by NewVerifyStream (any keyring). *)
+Theorem C07_source_end_to_end_refused_by_Verify (c : crypto) (Hc : crypto_ok c) (v : version) (sk : bytes)
+        (pieces : list bytes) (r : rng) (kr : sigring) (vd : validator) (VV KR : gval) :
+  v = v1 \/ v = v2 -> (16 <= List.length r)%nat -> good_validator vd v ->
+  exists sigfile,
+    go_signdet_session c v sk pieces r = Some sigfile /\
+    fst (run_func2 (ext_verify c vd kr) f_saltpack_Verify [VV; VBytes sigfile; KR])
+    = ORet [VNil; VNil; VErr "ErrWrongMessageType" []] /\
+    (forall rd, rdr_bytes rd = Some sigfile ->
+       fst (run_func2 (ext_NVS c vd kr) f_saltpack_NewVerifyStream [VV; rd; KR])
+       = ORet [VNil; VNil; VErr "ErrWrongMessageType" []]).
+Proof. exact (go_signDetached_refused_by_Verify c Hc v sk pieces r kr vd VV KR). Qed.
+End C07_source_end_to_end.
+
+Print Assumptions C07_source_end_to_end_VerifyDetached.
+Print Assumptions C07_source_end_to_end_sender.
+Print Assumptions C07_source_end_to_end_unknown_signer.
+Print Assumptions C07_source_end_to_end_refused_by_Verify.
+
+Example C07_ex_source_end_to_end :
+  let c := ToyCrypto.toy_crypto in
+  let sk := repeat x07 64 in
+  match GoEndToEndSign.go_signdet_session c v1 sk [[x68; x65]; [x6c; x6c; x6f]] (repeat x02 16) with
+  | Some sg => fst (run_func2 (GoAstProofs7c.ext_vdet2 c (Single v1) [ed_pub c sk]) f_saltpack_VerifyDetached
+                              [VNil; VBytes [x68; x65; x6c; x6c; x6f]; VBytes sg; VNil])
+  | None => OStuck "sender"
+  end = ORet [GoAstProofs7c.g_spk (ed_pub ToyCrypto.toy_crypto (repeat x07 64)); VNil].
+Proof. vm_compute. reflexivity. Qed.
+
+(* ===== BEGIN props/C07.v ===== *)
+(* ---- END TO END (source level): the TRANSLATED VerifyDetached / VerifyDetachedReader succeed only on a message the
+   returned key signed in detached mode under the presented header (go_VerifyDetached(_model), go_VerifyDetachedReader +
+   C07_authentic); with a failing message reader the call never succeeds.  proofs/GoEndToEndAuth.v. ---- *)
+From SP Require GoAstOpen GoAstProofs4b GoAstProofs5a GoAstProofs7c GoEndToEndAuth.
+Section C07_source_end_to_end.
+Import GoLang GoLang2 GoAstOpen GoAstProofs7c GoEndToEndAuth.
+
+Theorem C07_source_end_to_end_VerifyDetached_auth (c : crypto) (Hsha : forall x, List.length (sha512 c x) = 64%nat)
+        (vd : validator) (kr : sigring) (VV KR : gval) (msg sigfile pk : bytes) (L : list sign_event) :
+  Forall event_ok L -> (len pk < 4294967296)%N ->
+  vd_class (fst (run_func2 (ext_vdet2 c vd kr) f_saltpack_VerifyDetached [VV; VBytes msg; VBytes sigfile; KR])) = Ok pk ->
+  (exists v nonce hdr rest,
+      In (EvDetached v nonce msg) L /\
+      read_header_bytes sigfile = Ok (hdr, rest) /\ hdr = sig_header_bytes v mt_detached pk nonce)
+  \/ DetBreak c vd pk L msg sigfile.
+Proof. exact (go_VerifyDetached_authentic c Hsha vd kr VV KR msg sigfile pk L). Qed.
+
+Theorem C07_source_end_to_end_VerifyDetachedReader (c : crypto) (Hsha : forall x, List.length (sha512 c x) = 64%nat)
+        (vd : validator) (kr : sigring) (VV KR : gval) (msg : bytes)
+        (rerr : option (String.string * list gval)) (sigfile pk : bytes) (L : list sign_event) :
+  Forall event_ok L -> (len pk < 4294967296)%N ->
+  let rv := match rerr with Some (n, a) => Some (VErr n a) | None => None end in
+  vd_class (fst (run_func2 (ext_vdet c vd kr) f_saltpack_VerifyDetachedReader [VV; g_rdr msg rv; VBytes sigfile; KR])) = Ok pk ->
+  (exists v nonce hdr rest,
+      In (EvDetached v nonce msg) L /\
+      read_header_bytes sigfile = Ok (hdr, rest) /\ hdr = sig_header_bytes v mt_detached pk nonce)
+  \/ DetBreak c vd pk L msg sigfile.
+Proof. exact (go_VerifyDetachedReader_authentic c Hsha vd kr VV KR msg rerr sigfile pk L). Qed.
+
+Theorem C07_source_end_to_end_VerifyDetached_nil_error (c : crypto) (Hsha : forall x, List.length (sha512 c x) = 64%nat)
+        (vd : validator) (kr : sigring) (VV KR : gval) (msg sigfile : bytes) (sg : gval) (L : list sign_event) :
+  Forall event_ok L ->
+  fst (run_func2 (ext_vdet2 c vd kr) f_saltpack_VerifyDetached [VV; VBytes msg; VBytes sigfile; KR]) = ORet [sg; VNil] ->
+  exists pk,
+    sg = g_spk pk /\
+    ((len pk < 4294967296)%N ->
+     (exists v nonce hdr rest,
+         In (EvDetached v nonce msg) L /\
+         read_header_bytes sigfile = Ok (hdr, rest) /\ hdr = sig_header_bytes v mt_detached pk nonce)
+     \/ DetBreak c vd pk L msg sigfile).
+Proof. exact (go_VerifyDetached_authentic_nil_error c Hsha vd kr VV KR msg sigfile sg L). Qed.
+
+Theorem C07_source_end_to_end_VerifyDetachedReader_nil_error (c : crypto) (Hsha : forall x, List.length (sha512 c x) = 64%nat)
+        (vd : validator) (kr : sigring) (VV KR : gval) (msg : bytes)
+        (rerr : option (String.string * list gval)) (sigfile : bytes) (sg : gval) (L : list sign_event) :
+  Forall event_ok L ->
+  let rv := match rerr with Some (n, a) => Some (VErr n a) | None => None end in
+  fst (run_func2 (ext_vdet c vd kr) f_saltpack_VerifyDetachedReader [VV; g_rdr msg rv; VBytes sigfile; KR]) = ORet [sg; VNil] ->
+  exists pk,
+    sg = g_spk pk /\
+    ((len pk < 4294967296)%N ->
+     (exists v nonce hdr rest,
+         In (EvDetached v nonce msg) L /\
+         read_header_bytes sigfile = Ok (hdr, rest) /\ hdr = sig_header_bytes v mt_detached pk nonce)
+     \/ DetBreak c vd pk L msg sigfile).
+Proof. exact (go_VerifyDetachedReader_authentic_nil_error c Hsha vd kr VV KR msg rerr sigfile sg L). Qed.
+End C07_source_end_to_end.
+Print Assumptions C07_source_end_to_end_VerifyDetached_auth.
+Print Assumptions C07_source_end_to_end_VerifyDetachedReader.
+Print Assumptions C07_source_end_to_end_VerifyDetached_nil_error.
+Print Assumptions C07_source_end_to_end_VerifyDetachedReader_nil_error.
+
